@@ -1719,6 +1719,7 @@ class Stream(AbstractStream):
                 self.mol.copy_like(other.imol[phase])
                 return
             else:
+                self.empty() # Contents are replaced; they need not fit the new phases
                 self.phases = other.phases
                 imol = other._imol
         else:
